@@ -457,6 +457,17 @@ func checkResultDirect(r *settlement.Result, pc *PCaller, who string, res *sim.R
 		}
 		bad("wrong-payout", fmt.Sprintf("%s seat %d received %d, reference allows %d..%d; contributions=%v fold=%v score=%v changed=%v", who, k, net, lo[k], hi[k], c, pc.Fold, pc.Score, changed))
 	}
+	all, paid, put := true, int64(0), int64(0)
+	for k := 0; k < n; k++ {
+		if !got[k] {
+			all = false
+		}
+		paid += changed[k] + c[k]
+		put += c[k]
+	}
+	if all && paid != put {
+		bad("pots-not-handed-out-completely", fmt.Sprintf("%s the seats put in %d and receive %d; contributions=%v fold=%v score=%v changed=%v", who, put, paid, c, pc.Fold, pc.Score, changed))
+	}
 }
 
 // Mixed serves C02 and C16: most runs are simulated hands (world E), one in
